@@ -830,18 +830,18 @@ theorem pgetOwnFree_prefix : ∀ (ops rest : List Op) (tr rest' : List Res), ops
 /-! ## what a successful `checkPreconditions` means -/
 
 theorem checkSnaps_validates (cfg : Cfg) (look : Bytes → Option Ver) (last : Nat) (rs : ReadSet) :
-    ∀ (snaps : List Snap), (∀ s ∈ snaps, s.base ≤ last) → snapMonotone snaps = true →
+    ∀ (snaps : List Snap), (∀ s ∈ snaps, s.base ≤ last) →
     checkSnaps cfg look last rs snaps = true →
     ∀ s ∈ snaps, s.base = last ∨ valSnap cfg look rs s.pfx = true := by
   intro snaps
   induction snaps with
-  | nil => intro _ _ _ s hs; simp at hs
+  | nil => intro _ _ s hs; simp at hs
   | cons x rest ih =>
-    intro hb hm hc s hs
-    simp only [snapMonotone, Bool.and_eq_true, List.all_eq_true, decide_eq_true_eq] at hm
+    intro hb hc s hs
     simp only [checkSnaps] at hc
     by_cases hts : x.ts > last
-    · -- early return: x is fresh (and written), everything acquired later is at least as fresh
+    · -- skipped (`continue`): x is fresh (and written); the loop goes on with the other snapshots
+      simp only [hts, ↓reduceIte] at hc
       have hxb : x.base ≤ last := hb x (by simp)
       have hx : x.base = last := by
         unfold Snap.ts at hts
@@ -849,16 +849,14 @@ theorem checkSnaps_validates (cfg : Cfg) (look : Bytes → Option Ver) (last : N
       simp only [List.mem_cons] at hs
       rcases hs with hs | hs
       · subst hs; exact Or.inl hx
-      · have h1 := hm.1 s hs
-        have h2 := hb s (by simp [hs])
-        exact Or.inl (by omega)
+      · exact ih (fun s hs => hb s (by simp [hs])) hc s hs
     · simp only [hts, ↓reduceIte] at hc
       by_cases hv : valSnap cfg look rs x.pfx = true
       · simp only [hv, ↓reduceIte] at hc
         simp only [List.mem_cons] at hs
         rcases hs with hs | hs
         · subst hs; exact Or.inr hv
-        · exact ih (fun s hs => hb s (by simp [hs])) hm.2 hc s hs
+        · exact ih (fun s hs => hb s (by simp [hs])) hc s hs
       · simp [hv] at hc
 
 
@@ -1008,7 +1006,7 @@ def ActiveInv (cfg : Cfg) (prog : List Op) (mi : Option Nat) (log : Log) (tx : T
 
 def CommittedInv (cfg : Cfg) (prog : List Op) (mi : Option Nat) (log : Log) (tx : TxSt) (n : Nat) : Prop :=
   1 ≤ n ∧ n - 1 ≤ log.length ∧ (mi = none → snapMonotone tx.snaps = true) ∧
-    (snapMonotone tx.snaps = true → noOwnTail tx.rs = true → pgetOwnFree prog tx.trace = true →
+    (noOwnTail tx.rs = true → pgetOwnFree prog tx.trace = true →
       tx.trace = soloTrace cfg log (n - 1) prog)
 
 def TxInv (cfg : Cfg) (prog : List Op) (mi : Option Nat) (log : Log) (tx : TxSt) : Prop :=
@@ -1035,9 +1033,9 @@ theorem CommittedInv.grow {cfg : Cfg} {prog : List Op} {mi : Option Nat} {log : 
     (h : CommittedInv cfg prog mi log tx n) (more : Log) : CommittedInv cfg prog mi (log ++ more) tx n := by
   obtain ⟨h1, h2, hmo, h3⟩ := h
   refine ⟨h1, by rw [List.length_append]; omega, hmo, ?_⟩
-  intro a b c
+  intro a b
   rw [soloTrace_grow cfg log more _ prog h2]
-  exact h3 a b c
+  exact h3 a b
 
 theorem TxInv.grow {cfg : Cfg} {prog : List Op} {mi : Option Nat} {log : Log} {tx : TxSt} (h : TxInv cfg prog mi log tx) (more : Log) :
     TxInv cfg prog mi (log ++ more) tx := by
